@@ -221,8 +221,7 @@ Proof.
     assert (Hp : pending s1 = pending s) by (change s1 with (fst (s1, k)); rewrite <- En; reflexivity).
     destruct (deliver_user s1 t (a_tok a) (UProbe n k)) as [s2 o2] eqn:E. intros H; inversion H; subst.
     apply deliver_user_bal in E. unfold bal. rewrite sentc_cons, handc_cons, deadc_cons. cbn [sent1 hand1 dead1 is_probe] in *. lia.
-  - (* AReply *) destruct (Z.eqb snd rNone); [intros H; inversion H; subst; apply bal_refl|].
-    destruct (next_serial s) as [s1 k] eqn:En.
+  - (* AReply *) destruct (next_serial s) as [s1 k] eqn:En.
     assert (Hp : pending s1 = pending s) by (change s1 with (fst (s1, k)); rewrite <- En; reflexivity).
     destruct (deliver_user s1 snd (a_tok a) (UProbe n k)) as [s2 o2] eqn:E. intros H; inversion H; subst.
     apply deliver_user_bal in E. unfold bal. rewrite sentc_cons, handc_cons, deadc_cons. cbn [sent1 hand1 dead1 is_probe] in *. lia.
